@@ -1,2 +1,64 @@
 import Cfdp.Model.Segments
-def main : IO Unit := IO.println "stub"
+
+/-!
+Line-protocol driver: executes the model's definitions on the op lines produced by the Rust
+harness and prints one canonical answer per line.  `/verif/check` diffs these answers against
+the implementation's answers.
+-/
+open Cfdp
+
+structure DState where
+  segs : List Seg.Seg := []
+
+def fmtPairs (l : List (Nat × Nat)) : String :=
+  "[" ++ ",".intercalate (l.map (fun p => s!"{p.1}-{p.2}")) ++ "]"
+
+def rangeIncl (a b : Nat) : List Nat := (List.range (b + 1 - a)).map (· + a)
+
+def segStep (st : DState) (toks : List String) : DState × String :=
+  match toks with
+  | ["new"] => ({ st with segs := [] }, "ok")
+  | ["merge", a, b] =>
+    match a.toNat?, b.toNat? with
+    | some a, some b =>
+      let r := Seg.merge st.segs (a, b)
+      match r.2 with
+      | some n => ({ st with segs := r.1 }, s!"n={n} l={fmtPairs r.1}")
+      | none => ({ st with segs := [] }, "panic")
+    | _, _ => (st, "bad-op")
+  | ["gaps", a, b] =>
+    match a.toNat?, b.toNat? with
+    | some a, some b => (st, fmtPairs (Seg.gaps st.segs a b))
+    | _, _ => (st, "bad-op")
+  | ["complete", n] =>
+    match n.toNat? with
+    | some n => (st, if Seg.isComplete st.segs n then "1" else "0")
+    | none => (st, "bad-op")
+  | ["probe", m] =>
+    match m.toNat? with
+    | some m =>
+      let c := String.join ((rangeIncl 0 m).map (fun n => if Seg.isComplete st.segs n then "1" else "0"))
+      let g := String.join ((rangeIncl 0 m).map (fun a =>
+        String.join ((rangeIncl a m).map (fun b => fmtPairs (Seg.gaps st.segs a b)))))
+      let e := match Seg.endOf st.segs with | some x => toString x | none => "-"
+      (st, s!"c={c} g={g} end={e} len={st.segs.length}")
+    | none => (st, "bad-op")
+  | _ => (st, "bad-op")
+
+def step (st : DState) (line : String) : DState × String :=
+  match (line.splitOn " ").filter (· ≠ "") with
+  | "seg" :: rest => segStep st rest
+  | _ => (st, "bad-op")
+
+partial def loop (h : IO.FS.Stream) (out : IO.FS.Stream) (st : DState) : IO Unit := do
+  let line ← h.getLine
+  if line.isEmpty then return ()
+  let line := (line.dropEndWhile (fun c => c == '\n' || c == '\r')).toString
+  let (st', ans) := step st line
+  out.putStrLn ans
+  loop h out st'
+
+def main : IO Unit := do
+  let stdin ← IO.getStdin
+  let stdout ← IO.getStdout
+  loop stdin stdout {}
